@@ -252,6 +252,12 @@ func Unlock(site string, p unsafe.Pointer, read bool) {
 //go:norace
 func Sleep(site string, d int64) { call(request{kind: opSleep, site: site, n: d}) }
 
+// WaitStep parks the goroutine until the scheduler has executed at least n
+// steps; it is then run before anything else (fault injection at an exact step).
+//
+//go:norace
+func WaitStep(site string, n int64) { call(request{kind: opWaitStep, site: site, n: n}) }
+
 // Timer kinds for NewTimer.
 const (
 	KTicker    = int(tTicker)
